@@ -7,6 +7,9 @@
 //!         "totals": [total buffered events after each op], "per_source": [[src, n], ..] (final, in `sources` order)}
 //!   {"pp": [t0, t1, ..], "cutoff": c}   -> {"pp": <slice::partition_point(|t| t < c)>}   (ties the model of the
 //!                                           std binary search used by cleanup_expired to the toolchain's std)
+//!   {"program": "<vpl>", "events": [{"type": "T0", "ts_ms": t, "fields": [..]}, ..]}
+//!     -> {"outs": [[<event json>, ..], ..]}   Engine path: the program is loaded into an Engine, every event goes
+//!        through Engine::process, the events that reach the output channel after each one are listed in channel order
 //! Times are milliseconds relative to a fixed base instant (event time only: join.rs never reads the wall clock on
 //! these paths).
 use chrono::{DateTime, Duration, Utc};
@@ -23,7 +26,44 @@ fn t(ms: i64) -> DateTime<Utc> {
     DateTime::<Utc>::from_timestamp_millis(BASE_MS + ms).unwrap()
 }
 
+fn run_engine(req: &J) -> J {
+    let rt = tokio::runtime::Builder::new_current_thread().enable_all().build().unwrap();
+    let program = match varpulis_parser::parse(req["program"].as_str().unwrap()) {
+        Ok(p) => p,
+        Err(e) => return json!({"error": format!("parse: {:?}", e)}),
+    };
+    let (tx, mut rx) = tokio::sync::mpsc::channel::<Event>(100_000);
+    let mut eng = varpulis_runtime::Engine::new(tx);
+    if let Err(e) = eng.load(&program) {
+        return json!({"error": format!("load: {}", e)});
+    }
+    let mut outs = Vec::new();
+    for op in req["events"].as_array().unwrap() {
+        let mut e = Event::new_at(op["type"].as_str().unwrap(), t(op["ts_ms"].as_i64().unwrap()));
+        for kv in op["fields"].as_array().unwrap() {
+            e.data.insert(Arc::from(kv[0].as_str().unwrap()), value_from_json(&kv[1]));
+        }
+        let res = rt.block_on(eng.process(e));
+        let mut got = Vec::new();
+        if let Err(e) = res {
+            got.push(json!({"error": format!("{}", e)}));
+        }
+        while let Ok(ev) = rx.try_recv() {
+            got.push(json!({
+                "ts_ms": ev.timestamp.timestamp_millis() - BASE_MS,
+                "type": &*ev.event_type,
+                "fields": ev.data.iter().map(|(k, v)| json!([&**k, value_to_json(v)])).collect::<Vec<_>>(),
+            }));
+        }
+        outs.push(J::Array(got));
+    }
+    json!({ "outs": outs })
+}
+
 fn handle(req: &J) -> J {
+    if req.get("program").is_some() {
+        return run_engine(req);
+    }
     if let Some(arr) = req.get("pp") {
         let v: Vec<i64> = arr.as_array().unwrap().iter().map(|x| x.as_i64().unwrap()).collect();
         let c = req["cutoff"].as_i64().unwrap();
